@@ -24,6 +24,9 @@ type c15In struct {
 	// RefBuilt: the transmitted packet is produced by the reference encoder with the attributes in wire order Order
 	RefBuilt bool  `json:"ref_built"`
 	Order    []int `json:"order,omitempty"`
+	// MoreKDF: further AT_KDF attributes of a ref-built packet (RFC 5448 3.2: a Challenge lists several KDF offers, one
+	// AT_KDF each, in preference order), appended to EAP.Attrs before Order is applied
+	MoreKDF []model.Bytes `json:"more_kdf,omitempty"`
 	// EAPLib: reserved octets chosen by the independent encoder (zero unless LibReserved)
 	AllOctets bool `json:"every_single_octet_change"`
 }
@@ -141,6 +144,12 @@ func c15Oracle(in c15In) probe.Outcome {
 		}
 		if !hasMAC {
 			e.Attrs = append(e.Attrs, model.AkaAttr{Type: model.AT_MAC, Value: make(model.Bytes, 16)})
+		}
+		for _, v := range in.MoreKDF {
+			e.Attrs = append(append([]model.AkaAttr(nil), e.Attrs...), model.AkaAttr{Type: model.AT_KDF, Value: v})
+		}
+		if len(in.MoreKDF) > 0 {
+			labels = append(labels, "repeated-AT_KDF")
 		}
 		order := in.Order
 		if len(order) != len(e.Attrs) {
@@ -282,6 +291,12 @@ func c15Gen(t *rapid.T) c15In {
 		}
 		if !has {
 			n++
+		}
+		if rapid.IntRange(0, 3).Draw(t, "more-kdf") == 3 {
+			for i := rapid.IntRange(1, 3).Draw(t, "nkdf"); i > 0; i-- {
+				in.MoreKDF = append(in.MoreKDF, gen.Fill(t, "kdf-offer", 2))
+				n++
+			}
 		}
 		idx := make([]int, n)
 		for i := range idx {
